@@ -33,10 +33,10 @@ Map(tab, f(_)) == {f(r) : r \in Rng(tab)}
 Project(T, v) ==
   LET plex(r) == IF Old(v) THEN Put(r, 11, "~") ELSE r
       pform(r) == IF Old(v) THEN Put(r, 5, "~") ELSE r
-      psense(r) == IF Old(v) THEN Put(r, 10, "~") ELSE r
-      psyn(r) == IF Old(v) THEN Put(Put(r, 9, "~"), 10, "~") ELSE r
+      psense(r) == IF Old(v) THEN Put(r, 10, <<>>) ELSE r
+      psyn(r) == IF Old(v) THEN Put(Put(r, 9, <<>>), 10, "~") ELSE r
       pefr(r) == Put(r, 4, "~")                    \* entry-level frames have no id
-      plfr(r) == Put(r, 5, "~")                    \* lexicon-level frames list no senses
+      plfr(r) == Put(r, 5, <<>>)                   \* lexicon-level frames list no senses
       id(r) == r IN
   [lex |-> Map(T.lex, plex),
    req |-> IF Old(v) THEN {} ELSE Rng(T.req),
@@ -62,6 +62,44 @@ Tables == {"lex", "req", "entry", "form", "pron", "tag", "sense", "srel", "sex",
 Diff(A, B) == {t \in Tables : A[t] # B[t]}
 \* a version can express T entirely
 Expressible(T, v) == Project(T, v) = AsSets(T)
+(* ---- the reader's acceptance rules (C20) ------------------------------------ *)
+Elems10 == {"LexicalResource", "Lexicon", "LexicalEntry", "Lemma", "Form", "Tag", "Sense",
+            "SenseRelation", "Example", "Count", "SyntacticBehaviour", "Synset", "Definition",
+            "ILIDefinition", "SynsetRelation"}
+Elems11 == Elems10 \cup {"Requires", "Extends", "Pronunciation", "LexiconExtension",
+                          "ExternalLexicalEntry", "ExternalLemma", "ExternalForm", "ExternalSense",
+                          "ExternalSynset"}
+ElemsOf(v) == IF v = "1.0" THEN Elems10 ELSE Elems11
+\* children that may occur at most once in their parent
+SingleValued == {"Lemma", "ExternalLemma", "ILIDefinition", "Extends"}
+\* attributes without which an element cannot be identified / resolved
+Required(e) ==
+  CASE e \in {"Lexicon", "LexiconExtension"} -> {"id", "version", "label", "language", "email", "license"}
+    [] e \in {"Requires", "Extends"} -> {"id", "version"}
+    [] e \in {"LexicalEntry", "ExternalLexicalEntry", "ExternalSense", "ExternalSynset", "ExternalForm"} -> {"id"}
+    [] e = "Lemma" -> {"writtenForm", "partOfSpeech"}
+    [] e = "Form" -> {"writtenForm"}
+    [] e = "Tag" -> {"category"}
+    [] e = "Sense" -> {"id", "synset"}
+    [] e \in {"SenseRelation", "SynsetRelation"} -> {"target", "relType"}
+    [] e = "Synset" -> {"id", "ili"}
+    [] e = "SyntacticBehaviour" -> {"subcategorizationFrame"}
+    [] OTHER -> {}
+\* a mutation of a valid document of version v: [kind, elem, attr]
+\*   none | requote | reorder | drop_attr | rename | foreign_elem | dup_child | unbalance
+\*   | no_xmldecl | no_doctype | bad_version | blank_first_line | doctype_quotes
+HeaderOK(m) == m.kind \notin {"no_xmldecl", "no_doctype", "bad_version", "blank_first_line"}
+Accepts(v, m) ==
+  CASE m.kind \in {"none", "requote", "reorder", "doctype_quotes"} -> TRUE
+    [] m.kind = "drop_attr" -> m.attr \notin Required(m.elem)
+    [] m.kind = "rename" -> FALSE
+    [] m.kind = "foreign_elem" -> m.elem \in ElemsOf(v)
+    [] m.kind = "dup_child" -> m.elem \notin SingleValued
+    [] m.kind = "unbalance" -> FALSE
+    [] OTHER -> HeaderOK(m)
+\* mutations that leave the document's meaning untouched
+Neutral(m) == m.kind \in {"none", "requote", "reorder", "doctype_quotes"}
+
 \* what the pinned writer lost in addition: the metadata of examples
 DropExampleMeta(P) == [P EXCEPT !.sex = {Put(r, 7, "~") : r \in @}, !.yex = {Put(r, 6, "~") : r \in @}]
 =============================================================================
